@@ -221,18 +221,22 @@ func runC09(c *mon.Ctx) {
 			}
 			st = append(st, hs...)
 			shadow = append(shadow, hs...)
-			if i%16 == 15 || i == N-1 {
+			if i < 260 || i%16 == 15 || i == N-1 {
 				th, err := tlog.TreeHash(int64(i+1), zr)
 				ref := refmerkle.New(recs[:i+1])
 				if err != nil || rH(th) != ref.Root(i+1) {
 					c.Violation("treehash-not-rfc6962", id, map[string]any{"m": i + 1, "reader": "zero-copy", "err": fmt.Sprint(err)})
 				}
 				if i > 2 {
-					if _, err := tlog.ProveRecord(int64(i+1), int64(i/2), zr); err != nil {
-						c.Violation("proverecord-error", id, err.Error())
+					for _, n := range []int{i / 2, r.IntN(i + 1), i} {
+						if p, err := tlog.ProveRecord(int64(i+1), int64(n), zr); err != nil || !hashesEqual(p, ref.Path(n, i+1)) {
+							c.Violation("proverecord-not-rfc6962-path", id, map[string]any{"t": i + 1, "n": n, "reader": "zero-copy", "err": fmt.Sprint(err)})
+						}
 					}
-					if _, err := tlog.ProveTree(int64(i+1), int64(i/2+1), zr); err != nil {
-						c.Violation("provetree-error", id, err.Error())
+					for _, m := range []int{i/2 + 1, 1 + r.IntN(i+1)} {
+						if p, err := tlog.ProveTree(int64(i+1), int64(m), zr); err != nil || !hashesEqual(p, ref.Proof(m, i+1)) {
+							c.Violation("provetree-not-rfc6962-proof", id, map[string]any{"t": i + 1, "n": m, "reader": "zero-copy", "err": fmt.Sprint(err)})
+						}
 					}
 				}
 				for j := range shadow {
